@@ -94,4 +94,15 @@ def backwardAnalysis {D : Type} [DecidableEq D] (dom : Tealer.Domain D) (univ : 
   -- `self._block_contexts[key] = global_liveout[key]`: the result
   backwardAnalysisLoop dom univ blockCtx pathCtx blocks blockOf self key fuel worklist global_liveout
 
+/-- translated from DataflowTransactionContext._update_gtxn_constraints: the value it writes to
+    self._block_contexts[get_gtxn_at_index_key(ind, key)][block] (one entry of the double loop over keys and indices);
+    `groupIndices` = self._function.transaction_context(block).group_indices -/
+def updateGtxnConstraints {D : Type} (dom : Tealer.Domain D) (groupIndices : List Nat) (ind : Nat) (gtxCtx baseCtx : D) : D := Id.run do
+  let mut gtxCtx := gtxCtx
+  if (groupIndices.contains ind) then
+    gtxCtx := (dom.inter gtxCtx baseCtx)
+  else
+    gtxCtx := dom.null
+  return gtxCtx
+
 end Tealer.Generated
